@@ -21,7 +21,7 @@ DAY_NS = 86400 * 10 ** 9
 
 
 @st.composite
-def partition_column(draw, name, kinds=("int", "float", "bool", "datetime", "text", "category"), nulls=True):
+def partition_column(draw, name, kinds=("int", "float", "bool", "datetime", "text", "category"), nulls=True, tz_aware=True):
     kind = draw(st.sampled_from(list(kinds)))
     col = {"name": name, "kind": kind, "idx": draw(st.lists(st.integers(0, 5), min_size=1, max_size=24))}
     null = {"pat": "none", "mask": []}
@@ -44,7 +44,7 @@ def partition_column(draw, name, kinds=("int", "float", "bool", "datetime", "tex
         col["pool"] = draw(st.sampled_from([[True, False], [False, True], [True], [False]]))
     elif kind == "datetime":
         col["unit"] = draw(st.sampled_from(["ns", "ns", "us", "s"]))
-        col["tz"] = None
+        col["tz"] = draw(st.sampled_from([None, None, None, "UTC", "Europe/Berlin", "America/New_York"])) if tz_aware else None
         per = DAY_NS // frames.UNIT_NS[col["unit"]]
         base = 18262 * per  # 2020-01-01
         cands = [base, base + per, base + 31 * per, base + per // 2, base + 3600 * (per // 86400), 0, base - 366 * per]
